@@ -1,5 +1,7 @@
 //! Verification engine for Artem-Romanenia/o2o (property-based testing and fuzzing).
 pub mod dsl;
+pub mod e2;
+pub mod plan_struct;
 pub mod evidence;
 pub mod gen;
 pub mod gen_repeat;
